@@ -582,6 +582,13 @@ def disturb_mid():
             pass
 
 
+def beyond_domain(values):
+    """True when some table / array among the values nests deeper than the
+    depth every implementation must handle: refusing it is legitimate."""
+    return any(A.nesting(v) > A.MAX_DEPTH for v in values
+               if isinstance(v, (dict, list)))
+
+
 DISTURBED = False     # set by a check right after disturb(); see case_mark
 
 
@@ -633,7 +640,8 @@ def disturb():
 
 DENSE_KINDS = ['octet', 'short', 'long', 'longlong', 'shortstr-ascii',
                'shortstr-2byte', 'shortstr-mixed', 'longstr', 'table-count',
-               'table-strlen', 'table-keylen', 'array-count', 'channel']
+               'table-strlen', 'table-keylen', 'table-depth', 'array-count',
+               'channel']
 
 
 def _around(points, radius):
@@ -759,6 +767,23 @@ def dense_cases(task, tier):
                 yield m, (0, 'q', False, False, False, False, False,
                           {'s': 'x' * prefix + ch_ * k,
                            'a': ['y' * prefix + ch_ * k]}), 1
+    elif kind == 'table-depth':
+        # every nesting depth 1..128 (thorough 200), four list/dict patterns,
+        # innermost container holding a scalar / nothing.  Up to depth 32
+        # acceptance is required; beyond it, whatever the encoder accepts
+        # must still round-trip
+        m = M['Queue.Declare']
+        for d in range(1, (200 if thorough else 128) + 1):
+            for pattern in ('list', 'dict', 'alt', 'alt2'):
+                inners = [A.deep(d - 1, pattern, 1)]
+                if d >= 2:      # the same depth ending in an empty container
+                    inners.append(A.deep(d - 2, pattern, [] if d % 2 else {}))
+                if d % 4 == 0:
+                    inners += [A.deep(d - 1, pattern, 'leaf'),
+                               A.deep(d - 1, pattern, -129)]
+                for inner in inners:
+                    yield m, (0, 'q', False, False, False, False, False,
+                              {'d': inner}), 1
     elif kind == 'table-keylen':
         # every field-name length up to 128 characters / 255 bytes, for
         # 1-, 2-, 3- and 4-byte characters, at the top and one level down
